@@ -133,7 +133,8 @@ class Sign(Machine):
             k["decoy"] = "." in k["name"] and s.chance(0.6)
         # second key of a family, to see that the *right* key signed
         k0 = keys[0]
-        keys.append({"name": k0["name"] + "_b", "kind": k0["kind"], "enc": k0["enc"]})
+        # its name ends in letters of ".pem" / ".der" (a suffix stripped as a character set eats them): key_x_app, key_x_oem
+        keys.append({"name": k0["name"] + s.choice(["_b", "_app", "_oem", "_prime", "_nder"]), "kind": k0["kind"], "enc": k0["enc"]})
         n_flat = s.randint(1, 2)
         n_tree = s.choice([0, 1, 1, 2]) if prop == "C09" else s.choice([0, 0, 1])
 
@@ -260,6 +261,14 @@ class Sign(Machine):
             key2 = world.make_private_key(host.seed, kdef["name"] + "@kms2", kdef["kind"])
             host.write(f"kms2/{kdef['name']}.{kdef['enc']}", world.private_key_bytes(key2, kdef["enc"]))
             model.setdefault("keys2", {})[kdef["name"]] = {"pub": key2.public_key(), "kind": kdef["kind"], "enc": kdef["enc"]}
+            for charset in (".pem", ".der"):
+                short = kdef["name"].rstrip(charset)
+                if short and short != kdef["name"] and short not in [k["name"] for k in op["keys"]]:
+                    # another key under the name that stripping the extension *as a character set* would leave
+                    other = world.make_private_key(host.seed, kdef["name"] + "-stripped-" + charset, kdef["kind"])
+                    for enc in ("pem", "der"):
+                        if host.read(f"keys/{short}.{enc}") is None:
+                            host.write(f"keys/{short}.{enc}", world.private_key_bytes(other, enc))
             if kdef.get("decoy"):
                 decoy = world.make_private_key(host.seed, kdef["name"] + "-decoy", kdef["kind"])
                 for enc in ("pem", "der"):
